@@ -325,7 +325,10 @@ def graph_part(tier: str, seed: int, rep: evidence.Reporter, pool, corrupt: bool
             "judge_states": jst["states"], "judge_transitions": jst["transitions"], "judge_wall_s": round(jst["wall"], 1),
             "judge_Step_states": jst["steps_covered"], "replay_wall_s": round(replay_wall, 1),
             "prediction_disagreements": disagree, "drift": drift,
-            "samples": [{k: o[k] for k in ("g", "created", "kind", "order", "layers")} for o in obs[5:n_enum:max(1, n_enum // 3)]][:3]}
+            "samples": [{k: o[k] for k in ("g", "created", "kind", "order", "layers")}
+                        for o in ([x for x in obs[:n_enum] if x["created"] and len(x["g"]) >= 3][:2]
+                                  + [x for x in obs[:n_enum] if x["kind"] == "cycle"][:1]
+                                  + [x for x in obs[:n_enum] if x["kind"] == "unknown_ref"][:1])]}
 
 
 def _rand_graph_chunk(gs: list) -> list:
@@ -1070,7 +1073,7 @@ def run(pid: str, tier: str, seed: int) -> int:
     trans = ge.get("mc_transitions", 0) + ge.get("judge_transitions", 0) + ee.get("mc_transitions", 0) + ee.get("judge_transitions", 0)
     replayed = ge.get("enumerated_graphs", 0) + ge.get("random_graphs", 0) + ee.get("cases", 0) + ee.get("engine_cases", 0) + \
         (cov.get("fuzz") or {}).get("observations", 0)
-    samples = (ge.get("samples") or [])[:2] + (ee.get("samples") or [])[:3]
+    samples = (ge.get("samples") or [])[:3] + (ee.get("samples") or [])[:3]
     coverage = {"states": states, "transitions": trans, "traces_validated_against_impl": replayed,
                 "samples": samples, "exhaustive": "every stage list / AST of the stated bound (see graph.bound, expr.runs)",
                 "known_findings_hit": dict(rep.known_hits), **cov}
